@@ -29,6 +29,7 @@ type Oblig struct {
 	Result  *SolverResult
 	Candidate *SolverResult // sat answer after dropping quantified facts (needs replay to be believed)
 	Vacuity bool
+	TimeoutS int // per-obligation solver timeout override
 }
 
 type namedTerm struct {
@@ -85,6 +86,7 @@ type Frame struct {
 	curLoop  *loopInfo
 	callOrd  map[string]map[ssa.Instruction]int
 	ifOrd    map[*ssa.If]int
+	pendingRet *Val // result tuple while an `at return` assertion is evaluated
 }
 
 func (fr *Frame) dryMode() bool { return fr.dry > 0 || fr.run.eng.dryAll }
@@ -247,6 +249,7 @@ func (fr *Frame) analyze() {
 			add("panic.index", ins)
 		case *ssa.Call:
 			add("panic.nil", ins)
+			add("panic.call", ins)
 			name := calleeName(ins.Common())
 			m := fr.callOrd[name]
 			if m == nil {
@@ -473,7 +476,9 @@ func (fr *Frame) execBlock(b *ssa.BasicBlock, st *State, in map[*ssa.BasicBlock]
 					rv.F = append(rv.F, coerce(fr.val(r, st), fr.fn.Signature.Results().At(i).Type()))
 				}
 			}
+			fr.pendingRet = &rv
 			fr.atHook("return", "", ins, st)
+			fr.pendingRet = nil
 			cellID(fr.retCell)
 			st.cells[fr.retCell] = rv
 			fr.returns = append(fr.returns, edgeState{b, st})
@@ -768,7 +773,7 @@ func (fr *Frame) arithResult(ins ssa.Instruction, r *Term, t types.Type, st *Sta
 	if fr.top && c != nil && c.Wraps[ord] {
 		return wrapTo(r, lo, hi)
 	}
-	if tags, on := fr.safetyOn("overflow"); on && fr.top {
+	if tags, on := fr.safetyOn("overflow"); on {
 		fr.oblige("overflow", ord, "", tags, st, And(Le(BigLit(lo), r), Le(r, BigLit(hi))), text, ins.Pos())
 		st.assume(And(Le(BigLit(lo), r), Le(r, BigLit(hi))))
 		return r
@@ -1070,7 +1075,9 @@ func (fr *Frame) execTypeAssert(x *ssa.TypeAssert, st *State) Val {
 func (fr *Frame) execMakeSlice(x *ssa.MakeSlice, st *State) Val {
 	ln := fr.val(x.Len, st).S
 	cp := fr.val(x.Cap, st).S
-	fr.panicCheck("panic.make", x, st, And(Ge(ln, IntLit(0)), Le(ln, cp), Lt(cp, IntLit(maxLen))), "makeslice: len out of range")
+	fr.panicCheck("panic.make", x, st, And(Ge(ln, IntLit(0)), Le(ln, cp)), "makeslice: len out of range")
+	// global stated assumption: slice lengths stay below 2^31 (allocation size is a resource question, not decided here)
+	st.assume(Lt(cp, IntLit(maxLen)))
 	et := x.Type().Underlying().(*types.Slice).Elem()
 	arr := st.freshArr("mk")
 	for _, l := range shapeOf(et) {
